@@ -212,6 +212,7 @@ def run_case(ctx, case):
                 pass
             shared.max_time_in_seconds = None
             ctx.count("limit_removed_between_solves")
+        earlier = []
         for k, inst in enumerate(case["instances"]):
             instance = gen.build(inst)
             try:
@@ -236,6 +237,16 @@ def run_case(ctx, case):
                               {"reused": a, "fresh": b, "position": k})
             if gen.has_zero(inst):
                 ctx.count("zero_duration_instances")
+            earlier.append((k, S1, dict(S1.metadata), schedule_triples(S1)))
+        # what the solver object solved later must not reach back into earlier results
+        for k, S_old, meta_then, triples_then in earlier[:-1]:
+            ctx.count("earlier_results_rechecked")
+            if S_old.metadata.get("makespan") != S_old.makespan() or schedule_triples(S_old) != triples_then \
+                    or S_old.metadata.get("status") != meta_then.get("status"):
+                ctx.violation("c03_earlier_result_changed_by_a_later_solve",
+                              {"position": k, "metadata_then": {x: meta_then.get(x) for x in ("makespan", "status")},
+                               "metadata_now": {x: S_old.metadata.get(x) for x in ("makespan", "status")},
+                               "schedule_makespan": S_old.makespan()})
         ctx.note_case(case, True, fingerprint=str(hash(tuple(gen.fingerprint(i) for i in case["instances"]))))
     else:
         from job_shop_lib.benchmarking import load_benchmark_instance
